@@ -128,6 +128,23 @@ def evaluate(spec):
     if not np.allclose(Qd, exp, rtol=1e-9, atol=1e-13 * normQ):
         fails.append(("entries = closed SqRA formula from the FullGrid getters", "C14",
                       f"max abs deviation {np.abs(Qd - exp).max():.3e} (|Q|max {normQ:.3e}) -- saved/loaded geometry is not the getters'"))
+    # --- the same geometry with a plateau: the cells in the half space x > 0 sit 5000 kJ/mol above the others (a wall / hot region;
+    # the energy RANGE is beyond what one Boltzmann weight per cell can represent, neighbours inside the plateau differ by little).
+    # Only the rate matrix is examined (entries against the closed formula with the package's 500 kJ/mol cap), no decomposition.
+    chk("rate matrix with an energy plateau: finite, closed formula with cap")
+    E2 = E + np.where(np.asarray(full)[:, 0] > 0, 5000.0, 0.0)
+    with quiet():
+        Qp = SQRA(E2.copy(), V.copy(), H, S).get_rate_matrix(D, T).toarray()
+    expp = np.zeros((n, n))
+    expp[r0, c0] = D * s0 / (h0 * V0[r0]) * np.exp(np.minimum(np.round(E2[r0] - E2[c0], 14), 500.0) * 1000.0 / (2 * RT))
+    np.fill_diagonal(expp, 0.0)
+    np.fill_diagonal(expp, -expp.sum(axis=1))
+    if not np.all(np.isfinite(Qp)):
+        fails.append(("rate matrix with an energy plateau: finite, closed formula with cap", "C14", f"{int(np.sum(~np.isfinite(Qp)))} non-finite entries"))
+    elif not np.allclose(Qp, expp, rtol=1e-9, atol=1e-13 * np.abs(expp).max()):
+        i, j = np.argwhere(~np.isclose(Qp, expp, rtol=1e-9, atol=1e-13 * np.abs(expp).max()))[0]
+        fails.append(("rate matrix with an energy plateau: finite, closed formula with cap", "C14",
+                      f"entry ({i},{j}) = {Qp[i, j]!r} but the closed formula gives {expp[i, j]!r} (E_i = {E2[i]:.1f}, E_j = {E2[j]:.1f})"))
     # --- decomposition clauses
     k = min(6, n - 2)
     w = np.linalg.eig(Qd.T)[0]
